@@ -445,14 +445,16 @@ Record seen_obs := {
   so_latest : nat;
   so_store : list nat;       (* ascending *)
   so_log : list oreq;
-  so_hooks : list nat
+  so_hooks : list nat;
+  so_partial : bool          (* latest-sync and store could not be observed after this sync
+                                (the next one was already queued): they are not compared *)
 }.
 
 Definition obs_ok (st' : sstate) (o : obs) (s : seen_obs) : bool :=
   seen_eqb (seen_of (o_res o)) (so_res s)
   && list_match event_eqb (o_events o) (so_events s)
-  && (s_latest st' =? so_latest s)
-  && list_nat_eqb (sort (s_store st')) (so_store s)
+  && (so_partial s || (s_latest st' =? so_latest s))
+  && (so_partial s || list_nat_eqb (sort (s_store st')) (so_store s))
   && list_match req_matches (o_log o) (so_log s)
   && list_nat_eqb (o_hooks o) (so_hooks s).
 
